@@ -77,8 +77,10 @@ func (c *c07world) check(valid map[string][]string) {
 	w.Out("calls=%s sr=%v", strings.Join(rs, ","), c.sendRes)
 }
 
+var c07shards = map[string]int{"meta-callee-asleep-two-callers": 8}
+
 func c07Scenario(name string, qb, tb int, timerBranch bool, build func(c *c07world) map[string][]string) {
-	harn.Register(harn.Scenario{Property: "C07", Name: name, Run: func(ctx *harn.Ctx) *harn.Result {
+	harn.Register(harn.Scenario{Property: "C07", Name: name, QuickShards: c07shards[name], Shards: 2 * c07shards[name], Run: func(ctx *harn.Ctx) *harn.Result {
 		return harn.Explore(ctx, harn.Sched{QuickBound: qb, ThoroughBound: tb, Preempt: !c07delay[name], Cache: true, TimerBranch: timerBranch, Body: nodeBody(func(w *World) {
 			c := &c07world{w: w}
 			valid := build(c)
